@@ -275,15 +275,19 @@ func runProp[C any](t *testing.T, prop string, gen func(*rapid.T) C, check func(
 	}
 	rec = newRecorder(prop)
 	defer finishProp(t)
-	inflight := os.Getenv("VERIF_INFLIGHT")
+	var inflight *os.File
+	if p := os.Getenv("VERIF_INFLIGHT"); p != "" {
+		inflight, _ = os.OpenFile(p, os.O_CREATE|os.O_WRONLY|os.O_TRUNC, 0o644)
+		defer inflight.Close()
+	}
 	rapid.Check(t, func(rt *rapid.T) {
 		c := gen(rt)
 		info := &Info{}
-		if inflight != "" {
-			// a fatal runtime error (stack overflow, out of memory) cannot be recovered:
-			// leave the case on disk so that the driver can report it
+		if inflight != nil {
+			// a fatal runtime error (stack overflow, out of memory) cannot be recovered: leave the case on disk
+			// so that the driver can report it (one positional write; a stale tail after the first JSON value is ignored)
 			b, _ := json.Marshal(replayFile{Property: prop, Kind: "fatal-crash", Msg: "the process died while this case was being checked", Case: mustJSON(c)})
-			_ = os.WriteFile(inflight, b, 0o644)
+			_, _ = inflight.WriteAt(append(b, '\n'), 0)
 		}
 		f := safely(check, c, info)
 		rec.note(func() []byte { return mustJSON(c) }, info, f)
